@@ -276,10 +276,23 @@ func vfC11Call(fn func()) vfC11CallResult {
 // against two fresh instances may legitimately differ ("" = deterministic). Differential
 // assertions are only made for deterministic trees; the no-panic assertions hold for all.
 func vfC11Nondet(kind string, tree interface{}) string {
-	if kind == "RateLimiter" {
-		return "time:rate-limiter-periods"
-	}
 	reason := ""
+	if kind == "RateLimiter" {
+		if m, ok := tree.(map[string]interface{}); ok {
+			vfC11NondetMap("", func(k string) (interface{}, bool) {
+				if k == "kind" {
+					return "RateLimiter", true
+				}
+				y, ok := m[k]
+				return y, ok
+			}, &reason)
+		} else {
+			reason = "time:rate-limiter-periods"
+		}
+		if reason != "" {
+			return reason
+		}
+	}
 	var walk func(key string, v interface{})
 	walk = func(key string, v interface{}) {
 		if reason != "" {
@@ -352,6 +365,21 @@ func vfC11NondetMap(key string, get func(string) (interface{}, bool), reason *st
 			return
 		}
 	}
+	if t, ok := get("ttl"); ok {
+		// signature validator: the age of the (once signed) request is compared with it
+		if s := fmt.Sprint(t); s != "" && s != "<nil>" {
+			*reason = "time:ttl"
+			return
+		}
+	}
+	if t, ok := get("expiration"); ok {
+		// proxy memory cache: whether an entry is still alive when the next request arrives; ten
+		// seconds and more cannot elapse within one case, non-positive means "never expires"
+		if d, err := time.ParseDuration(fmt.Sprint(t)); err == nil && d > 0 && d < 10*time.Second {
+			*reason = "time:cache-expiration"
+			return
+		}
+	}
 	if t, ok := get("timeout"); ok {
 		if s := fmt.Sprint(t); s != "" && s != "<nil>" {
 			*reason = "time:timeout"
@@ -359,8 +387,34 @@ func vfC11NondetMap(key string, get func(string) (interface{}, bool), reason *st
 		}
 	}
 	if k, ok := get("kind"); ok && fmt.Sprint(k) == "RateLimiter" {
-		*reason = "time:rate-limiter-periods"
-		return
+		// Outcomes of a rate limiter depend on the wall clock - unless no policy can ever run out of
+		// permits within one case: a case sends well under 100 requests through any one limiter (at most 8 requests x the nodes of a flow), so
+		// with limitForPeriod >= 100 everywhere nothing is ever limited or delayed, whatever the
+		// periods and whatever state was carried over.
+		generous := false
+		if ps, ok := get("policies"); ok {
+			if l, ok := ps.([]interface{}); ok && len(l) > 0 {
+				generous = true
+				for _, e := range l {
+					var lv interface{}
+					switch x := e.(type) {
+					case map[string]interface{}:
+						lv = x["limitForPeriod"]
+					case map[interface{}]interface{}:
+						lv = x["limitForPeriod"]
+					default:
+						generous = false
+					}
+					if n, ok := lv.(int); !ok || n < 100 {
+						generous = false
+					}
+				}
+			}
+		}
+		if !generous {
+			*reason = "time:rate-limiter-periods"
+			return
+		}
 	}
 	for _, f := range []string{"retryPolicy", "circuitBreakerPolicy"} {
 		if r, ok := get(f); ok {
@@ -485,3 +539,10 @@ func vfC11Report(vf *vfCollector, rt vfFataler, key, format string, args ...inte
 
 // known finding (see harness/C11/proposed_known.jsonl)
 const vfC11KeyRateLimiterStolen = "kind=RateLimiter gen=old site=ratelimiter.(*RateLimiter).acquirePermission panic=invalid memory address or nil pointer dereference"
+
+// vfC11Finding is what one run of an update scenario found.
+type vfC11Finding struct {
+	key, msg     string
+	differential bool   // an outcome difference (must reproduce on brand-new instances to count)
+	discard      string // the single generation itself misbehaved the second time: nothing attributable
+}
